@@ -182,6 +182,7 @@ CANARIES = {
         ("name-taken-across-categories", "stix2/registration.py", "text", ["    if new_type._type in OBJ_MAP_OBSERVABLE.keys():", "    if False:"], "C19.map-agreement"),
         ("extension-left-behind", "stix2/v21/sdo.py", "text", ["                _unregister_extension(extension_name, '2.1')\n", "                pass\n"], "C19.composite-registration"),
         ("unregistered-extension-key-unvalidated", "stix2/properties.py", "text", ["                    _validate_id(\n                        key, self.spec_version, 'extension-definition--',\n                    )\n", "                    pass\n"], "C19.validation-before-write"),
+        ("extension-20-reference-rule", "stix2/registration.py", "text", ['_validate_props(combined_props, version, is_observable20=version == "2.0")', "_validate_props(combined_props, version)"], "C19.validation-before-write"),
     ],
     "C20": [
         ("boundary-overlap", "stix2/confidence/scales.py", "int+1", ["value_to_wep", "39 -> 40"], "C20.specification"),
